@@ -323,8 +323,14 @@ def cases(tier, seed):
         yield {"kind": "random", "mode": MODES[i % 5], "seed": subseed("C15r", seed, i) % (2**31), "count": 16}
     for i in range(160 if tier == "quick" else 4000):
         scen = ("plain", "scaler", "restart", "far_restart", "nan_domain")[i % 5]
-        yield {"kind": "solver", "mode": "callable" if (scen != "nan_domain" or i % 2 == 0) else ("2-point", None)[(i // 10) % 2],
-               "scenario": scen, "seed": subseed("C15s", seed, i) % (2**31)}
+        yield {"kind": "solver", "mode": "callable" if (scen != "nan_domain" or i % 2 == 0) else ("2-point", None, "3-point")[(i // 10) % 3],
+               "scenario": scen, "seed": subseed("C15s", seed, i) % (2**31),
+               "user_step": [None, ("eps", 0.05), ("eps", 0.3), ("rel", 0.3)][(i // 5) % 4] if scen == "nan_domain" else None}
+    for i in range(60 if tier == "quick" else 1500):
+        # finite differences with the user's own (coarse) steps on an objective undefined outside an interval: stencil points fall
+        # outside the domain now and then
+        yield {"kind": "solver", "mode": ("2-point", None, "3-point")[i % 3], "scenario": "nan_domain", "seed": subseed("C15sn", seed, i) % (2**31),
+               "user_step": [("eps", 0.05), ("eps", 0.3), ("rel", 0.3), ("eps", 1.0)][(i // 3) % 4]}
     nint = 200 if tier == "quick" else 3000
     for i in range(nint):
         yield {"kind": "interleaved", "modes": [MODES[i % 5], MODES[(i // 5 + 1 + i) % 5]], "seed": subseed("C15i", seed, i) % (2**31), "count": 8}
@@ -398,6 +404,9 @@ def run_solver_log(spec, out):
     flog, glog = [], []
 
     def f_pure(x):
+        if scen == "nan_domain" and mode != "callable":
+            with np.errstate(invalid="ignore", divide="ignore"):
+                return float(np.sum(w * (x - np.log(x) - np.log(3.0 - x))))  # nan outside (0, 3)
         if scen == "nan_domain":
             with np.errstate(invalid="ignore", divide="ignore"):
                 return float(np.sum(w * (x - np.log(x))))  # nan for x < 0
@@ -420,7 +429,7 @@ def run_solver_log(spec, out):
         return g_pure(x)
 
     if scen == "nan_domain":
-        x0 = np.exp(rng.uniform(-2, 2, n))
+        x0 = np.exp(rng.uniform(-2, 2, n)) if mode == "callable" else rng.uniform(0.05, 2.95, n)
         lb, ub = np.full(n, -np.inf), np.full(n, np.inf)
     else:
         x0 = c + rng.standard_normal(n) * float(np.exp(rng.uniform(-2, 3)))
@@ -432,6 +441,9 @@ def run_solver_log(spec, out):
         x0 = np.clip(x0, lb, ub)
     kw = dict(fun=fun, jac=jac if mode == "callable" else mode, bounds=np.column_stack([lb, ub]), ftol=0.0, gtol=0.0, maxfun=3000,
               maxls=int([1, 2, 5, 20, 20][int(rng.integers(0, 5))]), maxcor=int(rng.integers(1, 8)))
+    if spec.get("user_step") and mode != "callable":
+        kw["eps" if spec["user_step"][0] == "eps" else "finite_diff_rel_step"] = float(spec["user_step"][1])  # the user's own differencing step
+        out.count("solver_runs_with_user_differencing_step")
     s1 = float(np.exp(rng.uniform(np.log(1e-2), np.log(1e2)))) if scen in ("scaler", "far_restart", "restart") and rng.random() < 0.8 else None
     legs = [dict(maxiter=300)]
     if scen == "restart":
@@ -441,6 +453,33 @@ def run_solver_log(spec, out):
     res = None
     ck_counts = (0, 0)
     boundaries = {"objective": set(), "gradient": set()}  # first call index of each leg (each leg has its own wrapper)
+    import lbfgsb.scalar_function as SFM
+
+    sweeps = []  # one record per finite-difference gradient computation: (base point, first objective call, last objective call + 1)
+    orig_ad = SFM.approx_derivative
+
+    def counting_ad(fun_, x0_, *a, **k):
+        rec = [np.array(x0_, dtype=float, copy=True), len(flog), None]
+        sweeps.append(rec)
+        try:
+            return orig_ad(fun_, x0_, *a, **k)
+        finally:
+            rec[2] = len(flog)
+
+    SFM.approx_derivative = counting_ad
+    try:
+        _run_legs(out, legs, kw, s1, x0, flog, glog, boundaries, mode, n, f_pure, g_pure, sweeps)
+    finally:
+        SFM.approx_derivative = orig_ad
+    res = boundaries.pop("res")
+    _after_legs(out, res, flog, glog, boundaries, mode, n, scen, spec, sweeps)
+
+
+def _run_legs(out, legs, kw, s1, x0, flog, glog, boundaries, mode, n, f_pure, g_pure, sweeps):
+    from lbfgsb import minimize_lbfgsb
+
+    res = None
+    ck_counts = (0, 0)
     with AnswerMonitor(out, f_pure, g_pure, mode == "callable"):
         for li, leg in enumerate(legs):
             k2 = dict(kw, **leg)
@@ -453,10 +492,11 @@ def run_solver_log(spec, out):
                 k2["maxiter"] = int(res.nit) + leg["maxiter"]
             else:
                 k2["x0"] = x0
-            n_f0, n_g0 = len(flog), len(glog)
+            n_f0, n_g0, n_s0 = len(flog), len(glog), len(sweeps)
             boundaries["objective"].add(n_f0)
             boundaries["gradient"].add(n_g0)
             res = minimize_lbfgsb(**k2)
+            boundaries["res"] = res
             out.count("solver_runs_logged")
             if li > 0:
                 out.count("solver_restart_legs_logged")
@@ -466,6 +506,22 @@ def run_solver_log(spec, out):
             if mode == "callable" and (res.njev != ck_counts[1] + len(glog) - n_g0 if li > 0 else res.njev != len(glog)):
                 out.violate("ngev_drift", f"solver run n={n} leg {li}: njev={res.njev} but the gradient was called {len(glog) - n_g0} times in this leg "
                             f"(checkpoint: {ck_counts[1]})", mode=str(mode))
+            if mode != "callable":
+                out.count("finite_difference_gradient_computations_counted", len(sweeps) - n_s0)
+                if res.njev != (ck_counts[1] if li > 0 else 0) + len(sweeps) - n_s0:
+                    out.violate("ngev_drift", f"solver run n={n} leg {li} jac={mode}: njev={res.njev} but {len(sweeps) - n_s0} finite-difference gradient "
+                                f"computations were performed in this leg (checkpoint: {ck_counts[1] if li > 0 else 0})", mode=str(mode))
+
+
+def _after_legs(out, res, flog, glog, boundaries, mode, n, scen, spec, sweeps):
+    # a finite-difference gradient is computed at the point the wrapper has just evaluated the objective at: the sweep must not
+    # evaluate the objective at its own base point again
+    for base, a, b in sweeps:
+        out.count("finite_difference_sweeps_checked_for_base_point_reevaluation")
+        if any(np.array_equal(flog[k], base) for k in range(a, b or a)):
+            out.violate("reevaluated_known_point", f"solver run n={n} scenario={scen} mode={mode}: a finite-difference gradient computation evaluated the objective "
+                        f"at its own base point {base.tolist()}, where the wrapper had just evaluated it", mode=str(mode), what="fd_base_point")
+            break
     out.count("requests", len(flog) + len(glog))
     out.count("solver_scenario:" + scen)
     if "LNSRCH" in str(res.message):
